@@ -9,7 +9,7 @@ EXTENDS GlomErrors
 
 CONSTANTS MinDepth, MaxDepth,   \* number of enclosing constructs
           Rich,                 \* TRUE: full construct pool at every level; FALSE: core pool above depth 1
-          KwMode                \* "full": every default x skip_exc x glom_debug combination; "mid"; "small"
+          KwMode                \* "full": every default x skip_exc x glom_debug combination; "mid"; "small"; "tiny"
 
 \* ---- exception catalogue (abstract attributes <-> concrete harness classes, harness/c04.py)
 UserClasses == {
@@ -33,6 +33,16 @@ UserClasses == {
   Cls("GDbl",   GE, TRUE, TRUE, "rewrite", "rewrite", "user"),                    \* own __init__ rewriting args
   Cls("GVal",   <<"ValueError">> \o GE, TRUE, TRUE, "same", "ok", "user"),        \* class E(GlomError, ValueError)
   Cls("GCopy",  GE, TRUE, TRUE, "fail", "ok", "user"),                            \* __init__(a, b) -> (a+b,), own __copy__
+  Cls("StopIter", EX, TRUE, FALSE, "same", "ok", "builtin"),                      \* StopIteration(3)
+  Falsy(Cls("UFalsy", EX, TRUE, FALSE, "same", "ok", "user")),                    \* __len__ -> 0: bool(e) is False
+  Falsy(Cls("GFalsy", GE, TRUE, TRUE, "same", "ok", "user")),                     \* GlomError subclass, __bool__ -> False
+  \* user subclasses of the library's own error classes, constructed the way the library does
+  Cls("SubTypeMatch", <<"MatchError", "TypeError">> \o GE, TRUE, TRUE, "fail", "ok", "user"),
+  Cls("SubMatch",  <<"MatchError">> \o GE, TRUE, TRUE, "same", "ok", "user"),
+  Cls("SubCoalesce", GE, TRUE, TRUE, "same", "ok", "user"),
+  Cls("SubPAE", <<"AttributeError", "KeyError", "IndexError", "LookupError">> \o GE, TRUE, TRUE, "same", "ok", "user"),
+  Cls("SubCheck", GE, TRUE, TRUE, "same", "ok", "user"),
+  Cls("SubUnreg", GE, TRUE, TRUE, "same", "ok", "user"),
   Cls("BKbd",   BE, FALSE, FALSE, "same", "ok", "builtin"),                       \* KeyboardInterrupt()
   Cls("BUser",  BE, FALSE, FALSE, "same", "ok", "user") }                         \* class B(BaseException)
 GlomLeaves == {GlomDoc(i) : i \in GlomDocIds}
@@ -70,12 +80,15 @@ Pool(n) == IF Rich \/ n <= 1 THEN RichPool ELSE CorePool
 
 Defaults == {"absent", "obj", "none"}
 ObjDefaults == {"list", "dictT", "t"}      \* containers / T-like defaults: "the default object itself"
-Skips == {"absent", "exact", "other", "tuple", "tuple_non", "glomerror", "exception", "keyerror", "base"}
+Skips == {"absent", "exact", "other", "tuple", "tuple_non", "glomerror", "exception", "keyerror", "base", "empty"}
 Kw(d, s, g) == [default |-> d, skip |-> s, debug |-> g]
 Kws == CASE KwMode = "full" -> {Kw(d, s, g) : d \in Defaults, s \in Skips, g \in BOOLEAN}
                                \cup {Kw(d, s, FALSE) : d \in ObjDefaults, s \in Skips}
-         [] KwMode = "mid"  -> {Kw(d, s, FALSE) : d \in Defaults \cup ObjDefaults, s \in {"absent", "exact", "other", "glomerror"}}
-                               \cup {Kw("absent", "absent", TRUE), Kw("obj", "exact", TRUE), Kw("none", "keyerror", FALSE)}
+         [] KwMode = "mid"  -> {Kw(d, s, FALSE) : d \in {"absent", "obj"}, s \in {"absent", "exact", "glomerror"}}
+                               \cup {Kw("none", "empty", FALSE), Kw("list", "exception", FALSE),
+                                     Kw("absent", "absent", TRUE)}
+         [] KwMode = "tiny" -> {Kw("absent", "absent", FALSE), Kw("obj", "absent", FALSE),
+                                Kw("absent", "exact", TRUE)}
          [] OTHER           -> {Kw("absent", "absent", FALSE), Kw("obj", "absent", FALSE),
                                 Kw("absent", "exact", TRUE), Kw("none", "glomerror", FALSE),
                                 Kw("list", "exception", FALSE), Kw("dictT", "absent", FALSE)}
@@ -84,6 +97,11 @@ Kws == CASE KwMode = "full" -> {Kw(d, s, g) : d \in Defaults, s \in Skips, g \in
 \* itself is GlomErrors)
 VARIABLE lawv
 mcvars == <<vars, lawv>>
+
+\* StopIteration crossing a generator frame becomes RuntimeError by Python's own rule (PEP 479):
+\* the lazily evaluated Iter() construct and a generator target are outside the universe for it
+StopIterOK(cs, lf) ==
+  lf.id = "StopIter" => \A i \in 1..Len(cs) : ~(cs[i].k = "pass" /\ cs[i].v = "iter") /\ cs[i].k # "geniter"
 
 Init ==
   /\ lawv = ""
@@ -95,10 +113,10 @@ Choose ==
   /\ ph = "choose" /\ ph' = "init"
   /\ \E n \in MinDepth..MaxDepth :
        \/ \E cs \in [1..n -> Pool(n)] :
-            /\ ctxs' = cs /\ leaf' \in Leaves
+            /\ ctxs' = cs /\ leaf' \in Leaves /\ StopIterOK(cs, leaf')
        \/ /\ n >= 1
           /\ \E cs \in [1..(n - 1) -> Pool(n)] : \E lc \in LeafPool :
-            /\ ctxs' = Append(cs, lc) /\ leaf' \in UserClasses
+            /\ ctxs' = Append(cs, lc) /\ leaf' \in UserClasses /\ StopIterOK(ctxs', leaf')
   /\ UNCHANGED <<kw, x, arr, lvl, hist>>
 
 Next ==
